@@ -1,5 +1,6 @@
 import HC.Proofs.Verify
 import HC.Proofs.Sound
+import HC.Proofs.UpgradeSound
 /-!
 # C04 — forged or altered proofs never change what a replica believes
 
@@ -24,8 +25,17 @@ Soundness of acceptance, for every crypto record, as reductions to explicit coll
 * `path_sound`    : the underlying statement about the hash climb for any start node (also covers
   hash-only sections: everything but the start node's own size is authenticated).
 
-Partial (`sound_partial`): the combination "block under a root that the same proof's upgrade
-introduces", the seek section, and the byte-length bookkeeping are not yet covered by theorems; the
+* `sound_first_contact` : the combination for the first proof a replica ever receives — a block **together
+  with an upgrade from length 0** (no seek section, no additional nodes) on a replica without roots: if
+  `verify_proof` accepts, the block is the writer's block, or the run exhibits a collision of `leaf`,
+  `parent` or the root-list hash.  The proof shows that `verify_upgrade` walks positions that depend on the
+  claimed length only (`UpgradeSound.fullRoot_canon`: canonical, aligned iterators), that nothing merges on
+  the way, and that the root the block section climbed to is therefore *one of the adopted roots*, whose
+  hashes the signature covers.
+
+Partial (`sound_partial`): a block under a root that the same proof's upgrade introduces on a replica that
+already has roots (the `grow` branch), the seek section, additional nodes, and the byte-length bookkeeping
+are not yet covered by theorems; the
 alteration run checks them on the implementation (after every accepted proof every held block must
 equal the writer's and (length, byte length) must be a prefix sum of the writer's log; refused proofs
 must leave all observations unchanged).
@@ -87,5 +97,26 @@ theorem path_sound (C : Crypto) (bs : Array Bytes) (nodes : List Codec.Node) (fu
               root.length = (RefTree.node C bs (d + nodes.length) (o / 2 ^ nodes.length)).1 ∧
               ∀ n ∈ nodes, ∃ dn on, n = RefTree.nodeAt C bs dn on))) :=
   Sound.climb_sound C bs nodes fuel d o cur rn root rn' h hc
+
+/-- first contact: block + upgrade on a replica without roots -/
+theorem sound_first_contact (C : Crypto) (bs : Array Bytes) (wfork : Nat) (Signed : Bytes → Prop)
+    (t : Tree) (f : File) (pk : Bytes) (p : Proof) (b : Codec.DataBlock) (u : Codec.DataUpgrade) (cs' : Changeset)
+    (hb : p.block = some b) (hs : p.seek = none) (hu : p.upgrade = some u) (hadd : u.additionalNodes = [])
+    (hfresh : t.changeset.roots = [])
+    (hunf : ∀ m sig, C.verify pk m sig = true → Signed m)
+    (hsig : ∀ m, Signed m → ∃ n, n ≤ bs.size ∧ m = RefTree.signableOf C (bs.extract 0 n) wfork)
+    (hlen : ∀ x, (C.tree x).length = 32) (hsize : bs.size < 2 ^ 64) (hwf : wfork < 2 ^ 64)
+    (hb1 : cs'.length < 2 ^ 64) (hb2 : p.fork < 2 ^ 64) (hT : u.start + u.length < 2 ^ 64)
+    (hauth : Sound.StoreAuthentic C bs t f)
+    (hv : t.verifyProof C f p pk = .ok cs') :
+    Sound.Collision C ∨ Sound.TreeCollision C ∨ b.value = bs.getD b.index [] :=
+  UpgradeSound.first_contact_sound C bs wfork Signed t f pk p b u cs' hb hs hu hadd hfresh hunf hsig hlen hsize hwf hb1 hb2 hT hauth hv
+
+/-- non-vacuity: an empty tree has no roots and an empty store is trivially authentic -/
+example (C : Crypto) (bs : Array Bytes) : ({} : Tree).changeset.roots = [] ∧ Sound.StoreAuthentic C bs {} File.empty := by
+  refine ⟨rfl, ?_⟩
+  intro d o n h
+  have h40 : 0 < Spec.nodeSize := by decide
+  simp [Tree.node?, File.read, File.empty, File.size, h40] at h
 
 end HC.C04
